@@ -96,6 +96,8 @@ def arbitrary_element(seed): # unknown DL
 _IMASK_OLD = '    top_byte_mask_int, num_bytes = generate_mask(maxval)\n    while True:\n        enough_bytes = random_list_of_ints(num_bytes, entropy_f)\n        assert len(enough_bytes) == num_bytes\n        candidate_bytes = mask_list_of_ints(top_byte_mask_int, enough_bytes)\n        candidate_int = list_of_ints_to_number(candidate_bytes)\n'
 _IMASK_NEW = '    num_bits = size_bits(maxval)\n    num_bytes = size_bytes(maxval)\n    while True:\n        drawn = entropy_f(num_bytes)\n        assert len(drawn) == num_bytes\n        candidate_int = int.from_bytes(drawn, "big") & ((1 << num_bits) - 1)\n'
 
+_RTL = "def _double_and_add(pt, n, add): # extended->extended\n    # right-to-left binary scalarmult; 'add' is one of the two addition formulas\n    assert n >= 0\n    result = xform_affine_to_extended((0,1))\n    addend = pt\n    while n:\n        if n & 1:\n            result = add(result, addend)\n        addend = double_element(addend)\n        n >>= 1\n    return result\n\ndef scalarmult_element_safe_slow(pt, n):\n    return _double_and_add(pt, n, add_elements)\n"
+
 CORPUS = [
     # ------------------------------------------------------------------ C07 typestate
     B("c07-restore-not-started", ["C07"], [(SP, """        g = self.params.group
@@ -1133,4 +1135,64 @@ SideSymmetric = b"S"''', '''SideA, SideB, SideSymmetric = (bytes([c]) for c in b
       base="seeded_neutral/N20", tests="fail", note="shared offset helper called with +pw for the unblinding"),
     B("n24-double-uses-sum-for-G", ["C12"], [(ED, "    y2_minus_x2 = (y_squared - x_squared) % Q           # G\n", "    y2_minus_x2 = (y_squared + x_squared) % Q           # G\n")],
       base="seeded_neutral/N24", tests="fail", note="descriptive-name doubling formula with a sign error"),
+    # ---- right-to-left iterative ladder (result + r*addend = n*P)
+    N("p-rtl-ladder", [(_ITER[0][0], _ITER[0][1], _RTL), _ITER[1]], props=["C13", "C12", "C05", "C14", "C01", "C03"],
+      note="behaviour-preserving at the element API (to_bytes normalises); the projective representation differs"),
+    B("p-rtl-ladder-addend-not-doubled-on-zero-bit", ["C13"], [(_ITER[0][0], _ITER[0][1], _RTL.replace("""            result = add(result, addend)
+        addend = double_element(addend)""", """            result = add(result, addend)
+            addend = double_element(addend)""")), _ITER[1]]),
+    B("p-rtl-ladder-adds-point-not-addend", ["C13"], [(_ITER[0][0], _ITER[0][1], _RTL.replace("result = add(result, addend)", "result = add(result, pt)")), _ITER[1]]),
+    # ---- second set of idiom probes (neutral)
+
+ N("q-dict-comprehension-serialize", [(SP, '''        d = {"hashed_params": self.hash_params(),
+             "side": self.side.decode("ascii"),
+             "idA": hexlify(self.idA).decode("ascii"),
+             "idB": hexlify(self.idB).decode("ascii"),
+             "password": hexlify(self.pw).decode("ascii"),
+             "xy_scalar": hexlify(g.scalar_to_bytes(self.xy_scalar)).decode("ascii"),
+             }
+        return d''', '''        d = {"hashed_params": self.hash_params(),
+             "side": self.side.decode("ascii")}
+        d.update({name: hexlify(value).decode("ascii")
+                  for name, value in (("idA", self.idA), ("idB", self.idB), ("password", self.pw),
+                                      ("xy_scalar", g.scalar_to_bytes(self.xy_scalar)))})
+        return d''')]),
+ N("q-try-except-translate", [(SP, '''        inbound_elem = g.bytes_to_element(self.inbound_message)
+''', '''        try:
+            inbound_elem = g.bytes_to_element(self.inbound_message)
+        except ValueError:
+            raise
+''')]),
+ N("q-annotated-assignments", [(SP, '''        self._started = False
+        self._finished = False
+''', '''        self._started: bool = False
+        self._finished: bool = False
+''')]),
+ N("q-augmented-attribute", [(SP, '''        self._finished = True
+
+        self.inbound_message''', '''        self._finished |= True
+
+        self.inbound_message''')]),
+ N("q-while-else-sampler", [(UT, '''        if candidate_int < maxval:
+            return start + candidate_int''', '''        if candidate_int < maxval:
+            break
+    return start + candidate_int''')]),
+ N("q-functools-reduce-join", [(SP, '''    transcript = b"".join([sha256(pw).digest(),
+                           sha256(idA).digest(), sha256(idB).digest(),
+                           X_msg, Y_msg, K_bytes])''', '''    import functools, operator
+    transcript = functools.reduce(operator.add, [sha256(pw).digest(),
+                           sha256(idA).digest(), sha256(idB).digest(),
+                           X_msg, Y_msg, K_bytes], b"")''')]),
+ N("q-isinstance-and-not-bool", [(GR, '''        if not isinstance(i, int):
+            raise TypeError("E*N requires N be a scalar")''', '''        if not isinstance(i, int) or isinstance(i, str):
+            raise TypeError("E*N requires N be a scalar")''')]),
+ N("q-set-comprehension-sides", [(SP, '''        if other_side not in (SideA, SideB):''', '''        if other_side not in {s for s in (SideA, SideB)}:''')]),
+ N("q-conditional-import", [(UT, '''import os, binascii, math
+''', '''import os, binascii, math
+try:
+    from math import ceil as _ceil
+except ImportError:
+    _ceil = math.ceil
+''')]),
+ N("q-struct-pack-side", [(SP, '''        outbound_side_and_message = self.side + self.outbound_message''', '''        outbound_side_and_message = b"%s%s" % (self.side, self.outbound_message)''')]),
 ]
